@@ -35,7 +35,7 @@ import (
 
 func TestMain(m *testing.M) {
 	log.ReplaceGlobals(zap.NewNop(), &log.ZapProperties{})
-	vkit.Main(m, "C06")
+	vkit.MainWith(m, "C06", encCleanup)
 }
 func TestProp(t *testing.T)   { vkit.RunAll(t) }
 func TestReplay(t *testing.T) { vkit.RunReplay(t) }
@@ -79,6 +79,7 @@ type Case struct {
 	Stores  int  `json:"stores"`
 	Collide bool `json:"collide,omitempty"` // peer ids from their own counter (collide with store/region ids)
 	NoTerm  bool `json:"noterm,omitempty"`  // TiKV older than 3.0: term never reported
+	Enc     int  `json:"enc,omitempty"`     // encryption at rest: 0 off, 1..3 = aes128/192/256-ctr
 	Events  []Ev `json:"ev"`
 	Dels    []Dl `json:"dl"`
 }
@@ -108,6 +109,9 @@ func genBase(t *rapid.T, maxEv int, faults bool) Case {
 	c.Stores = rapid.IntRange(3, 6).Draw(t, "stores")
 	c.Collide = rapid.IntRange(0, 5).Draw(t, "collide") == 0
 	c.NoTerm = rapid.IntRange(0, 9).Draw(t, "noterm") == 0
+	if rapid.IntRange(0, 2).Draw(t, "encrypted") == 0 {
+		c.Enc = rapid.IntRange(1, 3).Draw(t, "encMethod")
+	}
 	n := rapid.IntRange(10, maxEv).Draw(t, "nEv")
 	for i := 0; i < n; i++ {
 		c.Events = append(c.Events, Ev{
@@ -222,10 +226,22 @@ type fixture struct {
 	storage *core.Storage // over fkv
 	fkv     *faultkv.KV   // fault injector between the storage and mem
 	mem     kv.Base       // the oracle reads here
+	enc     int           // encryption at rest method (0 = off)
 	fresh   uint64        // ids of fabricated regions, far away from the simulator's counter
 }
 
-func newFixture(stores int) (*fixture, error) {
+// errFixture marks a fixture that could not be set up (etcd / key manager): inconclusive.
+var errFixture = fmt.Errorf("fixture unavailable")
+
+func newFixture(stores int, enc int) (*fixture, error) {
+	var sopts []core.StorageOption
+	if enc = mod(enc, 4); enc > 0 {
+		km, err := keyManager(enc)
+		if err != nil {
+			return nil, errFixture
+		}
+		sopts = append(sopts, core.WithEncryptionKeyManager(km))
+	}
 	cfg := config.NewConfig()
 	if err := cfg.Adjust(nil, false); err != nil {
 		return nil, err
@@ -235,7 +251,7 @@ func newFixture(stores int) (*fixture, error) {
 	ctx, cancel := context.WithCancel(context.Background())
 	mem := kv.NewMemoryKV()
 	fkv := faultkv.New(mem)
-	f := &fixture{cancel: cancel, opt: opt, mem: mem, fkv: fkv, storage: core.NewStorage(fkv), bc: core.NewBasicCluster(), fresh: 1 << 40}
+	f := &fixture{cancel: cancel, opt: opt, mem: mem, fkv: fkv, storage: core.NewStorage(fkv, sopts...), enc: enc, bc: core.NewBasicCluster(), fresh: 1 << 40}
 	f.rc = cluster.NewRaftCluster(ctx, "", 1, nil, nil, nil)
 	f.rc.InitCluster(mockid.NewIDAllocator(), opt, f.storage, f.bc)
 	// a bootstrapped cluster: meta and stores are persisted (LoadClusterInfo needs them)
